@@ -1,5 +1,5 @@
 (* C03 - no argument can make the library panic (every partial Go operation is a Panic branch of the model). *)
-From Spdx Require Import Props.Shipped Proofs.ApiFacts Proofs.ScanRef Proofs.ParseGrammar.
+From Spdx Require Import Props.Shipped Proofs.ApiFacts Proofs.ScanRef Proofs.ParseGrammar Model.ParseStack Proofs.ParseStack.
 Local Open Scope list_scope.
 
 Theorem C03_general T : chk_words T = true -> forall (l : list str) (e : str) (A : list str),
@@ -23,11 +23,28 @@ Proof. exact (scan_total T0 HT0 s). Qed.
 Theorem C03_parser ts : p_tokens ts <> Panic /\ p_tokens ts <> Fuel.
 Proof. exact (parse_never_panics ts). Qed.
 
+(* parseExpression AS IT IS WRITTEN since the repair of D-k (explicit stack of operand groups, Model/ParseStack.v): the
+   index expression operands[len(operands)-1] of joinOperands is a Panic branch of that model; it is never reached,
+   for any token list - closeTerms / node() only ever run with a non-empty chain - and the |tokens|+1 phase steps
+   always suffice.  Every outcome is a tree or a syntax error. *)
+Theorem C03_parser_as_written ts :
+  (ps_tokens ts <> Panic /\ ps_tokens ts <> Fuel) /\ (ps_tokens ts = Err ESyntax \/ exists t, ps_tokens ts = Ok t).
+Proof. exact (conj (stack_never_panics ts) (stack_safe ts)). Qed.
+(* ... and it is the function the other theorems speak about *)
+Theorem C03_parser_as_written_is_the_model ts : ps_tokens ts = p_tokens ts.
+Proof. exact (stack_equals_recursive ts). Qed.
+Example C03_parser_as_written_example :
+  ps_tokens [TOp OLp; TOp OLp; TLic (s2l "MIT"); TOp ORp; TOp OAnd; TRef (s2l "a"); TOp ORp; TOp OOr; TLic (s2l "ISC"); TOp OPlus]
+    = Ok (NOr (NAnd (NLic (s2l "MIT") false None) (NRef None (s2l "a"))) (NLic (s2l "ISC") true None))
+  /\ ps_tokens [TOp OLp; TOp ORp] = Err ESyntax /\ ps_tokens [TOp OLp; TLic (s2l "MIT")] = Err ESyntax
+  /\ ps_tokens [TLic (s2l "MIT"); TOp OOr] = Err ESyntax.
+Proof. vm_compute. repeat split; reflexivity. Qed.
+
 Example C03_example :
   validate_licenses T0 [s2l "("; s2l "MIT WITH"; s2l "DocumentRef-a:"; []] = Ok (false, [s2l "("; s2l "MIT WITH"; s2l "DocumentRef-a:"; []])
   /\ satisfies T0 (s2l "(LicenseRef-a OR LicenseRef-b) AND MIT OR ISC") [s2l "MIT"] = Ok false.
 Proof. vm_compute. split; reflexivity. Qed.
 
 (* axioms the property theorems of this file depend on (one traversal for all of them) *)
-Definition C03_theorems := (@C03_general, @C03, @C03_scanner, @C03_parser).
+Definition C03_theorems := (@C03_general, @C03, @C03_scanner, @C03_parser, @C03_parser_as_written, @C03_parser_as_written_is_the_model).
 Redirect "assumptions/C03" Print Assumptions C03_theorems.
